@@ -242,6 +242,11 @@ type runner struct {
 }
 
 func (r *runner) hit(site, what, detail string) {
+	// one hit per script: after the first one the reference may be out of step with the queue, and what follows would
+	// be consequences of the same cause under other names
+	if len(r.hits) > 0 {
+		return
+	}
 	key := "C12:" + r.kind + "." + site + ":" + what
 	if r.seen[key] {
 		return
@@ -753,9 +758,13 @@ func (r *runner) addAnyway(ctrl bool, x int, resolvePop bool) string {
 			k += len(sh.ctrl) // PopAnyway hands out control items first
 		}
 		for i := 0; i < k && len(sh.ctrl)+len(sh.req) > 0; i++ {
-			res, _ := r.lq.popany()
+			// never call a blocking method on the script's own goroutine: if the queue is (wrongly) empty the call parks
+			res := r.blocking(func() string { s, _ := r.lq.popany(); return s })
 			r.checkPop("popany", res, true, false, r.kind == "mq")
 			popped = append(popped, res)
+			if !strings.HasPrefix(res, "v:") {
+				break
+			}
 		}
 	} else {
 		r.lq.close()
